@@ -340,6 +340,29 @@ fn outside(text: &str) -> Vec<bool> {
         .collect()
 }
 
+/// byte positions at which a fact begins (the first one, and every one whose preceding
+/// non-blank byte is a terminator outside quotes)
+fn fact_starts(text: &str) -> Vec<usize> {
+    let o = outside(text);
+    let b = text.as_bytes();
+    let mut v = Vec::new();
+    let mut after_dot = true;
+    for i in 0..b.len() {
+        if !o[i] {
+            after_dot = false;
+            continue;
+        }
+        if b[i].is_ascii_whitespace() {
+            continue;
+        }
+        if after_dot && text.is_char_boundary(i) {
+            v.push(i);
+        }
+        after_dot = b[i] == b'.';
+    }
+    v
+}
+
 fn positions(text: &str, pred: impl Fn(u8) -> bool) -> Vec<usize> {
     let o = outside(text);
     text.bytes().enumerate().filter(|(i, b)| o[*i] && pred(*b)).map(|(i, _)| i).collect()
@@ -596,6 +619,26 @@ pub fn gen(r: &mut Rng, cases: usize, size: usize, extra: &[String], out: &mut O
             0 => {
                 out.line(&format!("parse {}", hex(&v.text)));
                 out.line(&format!("parsecheck {} {}", hex(&v.text), render_facts(&v.labels, &v.facts)));
+                // the same text fed to ONE parser object in several calls, cut where a fact begins
+                let starts = fact_starts(&v.text);
+                if starts.len() >= 2 && r.chance(1, 2) {
+                    let mut cuts: Vec<usize> = Vec::new();
+                    for _ in 0..r.range(1, 2) {
+                        let c = starts[1 + r.usize(starts.len() - 1)];
+                        if !cuts.contains(&c) {
+                            cuts.push(c);
+                        }
+                    }
+                    cuts.sort_unstable();
+                    let mut chunks: Vec<String> = Vec::new();
+                    let mut prev = 0;
+                    for c in cuts {
+                        chunks.push(hex(&v.text[prev..c]));
+                        prev = c;
+                    }
+                    chunks.push(hex(&v.text[prev..]));
+                    out.line(&format!("parsechunks {} {}", render_facts(&v.labels, &v.facts), chunks.join(" ")));
+                }
                 out.line(&format!(
                     "# case parser kind=valid len={} facts={} labels={}",
                     v.text.len(),
@@ -752,12 +795,23 @@ fn join_or_dash(v: Vec<String>, sep: &str) -> String {
 
 /// runs the real parser on the text and renders everything that can be seen of the result
 pub fn observe(text: &str) -> String {
+    observe_chunks(&[text])
+}
+
+/// the same for a text handed to one parser object in several `parse()` calls
+pub fn observe_chunks(chunks: &[&str]) -> String {
     let r = catch_unwind(AssertUnwindSafe(|| {
         let parser = AdfParser::default();
-        let rest = match parser.parse()(text) {
-            Ok((rest, ())) => rest.len(),
-            Err(_) => return "error".to_string(),
-        };
+        let mut rest = 0;
+        for text in chunks {
+            rest = match parser.parse()(text) {
+                Ok((rest, ())) => rest.len(),
+                Err(_) => return "error".to_string(),
+            };
+            if rest != 0 && chunks.len() > 1 {
+                return "error".to_string();
+            }
+        }
         let vc = parser.var_container();
         let names: Vec<String> = vc.names().read().expect("names").clone();
         let mut dict: Vec<(usize, String)> =
@@ -831,6 +885,21 @@ pub fn exec(ws: &[&str], l: &str, out: &mut Out) -> bool {
                     out.line(&format!("= {o}"));
                     // "the parser does not panic" is part of the property, whatever the text
                     out.line(if o == "panic" { "~ panic" } else { "~ nopanic" });
+                }
+                None => out.line("= bad-request"),
+            }
+            true
+        }
+        "parsechunks" if ws.len() >= 3 => {
+            out.line(l);
+            out.flush();
+            let texts: Option<Vec<String>> = ws[2..].iter().map(|h| unhex(h)).collect();
+            match texts {
+                Some(ts) => {
+                    let refs: Vec<&str> = ts.iter().map(|s| s.as_str()).collect();
+                    let o = observe_chunks(&refs);
+                    out.line(&format!("= {o}"));
+                    out.line(&format!("~ {o}"));
                 }
                 None => out.line("= bad-request"),
             }
